@@ -26,7 +26,7 @@ def make_loader(cfg):
     return coding.make_loader(cfg)
 
 
-BUDGET_S = {"quick": 1500, "thorough": 10000}
+BUDGET_S = {"quick": 1500, "thorough": 1500}
 
 
 def jobs(tier):
